@@ -1060,6 +1060,11 @@ class H2Stream:
             if not end_stream:
                 raise ProtocolError("Trailers must have END_STREAM set")
 
+        if end_stream:
+            # The message ends here without (further) DATA: the body received
+            # so far must match the announced content-length.
+            self._track_content_length(0, end_stream)
+
         hdr_validation_flags = self._build_hdr_validation_flags(events)
         events[0].headers = self._process_received_headers(
             headers, hdr_validation_flags, header_encoding
